@@ -115,6 +115,10 @@ def show(t):
         return f"{t[1]}({show(t[2])})"
     if k == "smul":
         return "*".join(show(x) for x in t[1])
+    if k == "sadd":
+        return "(" + "+".join(show(x) for x in t[1]) + ")"
+    if k == "sc":
+        return show(t[1])
     if k == "sinv":
         return f"1/({show(t[1])})"
     if k == "sconj":
@@ -155,6 +159,9 @@ def snorm(s, hyp):
         if x[0] == "smul":
             return snorm(("smul", tuple(("sinv", y) for y in x[1])), hyp)
         return ("sinv", x)
+    if k == "sadd":
+        xs = sorted((snorm(x, hyp) for x in s[1]), key=repr)
+        return ("sadd", tuple(xs))
     if k == "smul":
         out = []
         for x in s[1]:
@@ -192,7 +199,7 @@ def snorm(s, hyp):
 # ------------------------------------------------------------------ matrix normaliser
 def norm(t, hyp=frozenset()):
     k = t[0]
-    if k in ("sym", "I", "var", "opaque", "diag", "perm", "mismatch"):
+    if k in ("sym", "I", "var", "opaque", "perm", "mismatch"):
         return t
     if k == "join":
         return ("join", frozenset(norm(x, hyp) for x in t[1]))
@@ -272,6 +279,14 @@ def norm(t, hyp=frozenset()):
         return ("fam", t[1], order, body) + t[4:]
     if k == "fn":
         return ("fn", t[1], norm(t[2], hyp))
+    if k == "famsplice":
+        return norm(("fam", ) + t[1:], hyp)
+    if k == "diag":
+        v = t[1]
+        if isinstance(v, tuple) and v and v[0] == "reshape" and v[2] == ("-1", ) and isinstance(v[1], tuple) and v[1][0] == "outer":
+            # Diagonal((a[:, None] * b[None, :]).reshape(-1)) = diag(a) (x) diag(b)   (row-major flattening)
+            return ("kron", (("diag", v[1][1]), ("diag", v[1][2])))
+        return t
     if k == "tri":
         return norm(t[1], hyp)
     if k in ("T", "C", "inv"):
@@ -476,11 +491,19 @@ class TermEval(AbsInt):
         op = node.op
         if isinstance(op, ast.MatMult):
             return MUL(left, right)
+        if isinstance(op, (ast.Add, ast.Sub)):
+            ls, rs = self.as_scalar(left), self.as_scalar(right)
+            if ls is not None and rs is not None:
+                return ("sc", ("sadd", (ls, rs if isinstance(op, ast.Add) else ("smul", (("num", -1), rs)))))
         if isinstance(op, ast.Add):
             return ADD(left, right)
         if isinstance(op, ast.Sub):
             return ADD(left, SCAL(("num", -1), right))
         if isinstance(op, ast.Mult):
+            if left[0] == "colvec" and right[0] == "rowvec":
+                return ("outer", left[1], right[1])  # a[:, None] * b[None, :]
+            if left[0] == "rowvec" and right[0] == "colvec":
+                return ("outer", right[1], left[1])
             if left[0] == "colvec":
                 return MUL(("diag", left[1]), right)  # d[:, None] * X = diag(d) X
             if left[0] == "rowvec":
@@ -517,7 +540,7 @@ class TermEval(AbsInt):
             return ("ssym", t[1])
         return None
 
-    scalars = frozenset({"c", "x", "other_scalar"})
+    scalars = frozenset()
 
     def unaryop(self, node, val, ctx):
         if isinstance(node.op, ast.USub):
@@ -647,6 +670,10 @@ class TermEval(AbsInt):
         return (kind, tuple(xs))
 
     def call_method(self, recv, name, node, args, kwargs, ctx):
+        if recv == sym("self") and ctx is not None and ctx.fi is not None and ctx.fi.enc_cls is not None and name.startswith("__"):
+            m = self.idx.find_method(ctx.fi.enc_cls, name)
+            if m is not None:
+                return self.eval_function(m, node, args, kwargs, ctx, skip_first=True)
         if name in ("conj", "conjugate"):
             return C(recv)
         if name in ("to_dense", "to", "copy", "clone", "astype", "cpu"):
